@@ -105,7 +105,7 @@ Proof.
   intros Hn Hstd Htb Htbs Hp.
   rewrite lib_out_script_eq; [ | destruct d as [[] w p]; discriminate | exact Htbs ].
   rewrite (script_parse_std d Hstd). clear Htbs.
-  destruct fx as [fw fn fp tb0]. cbn [fx_tb] in Htb.
+  destruct fx as [fw fn fp fa tb0]. cbn [fx_tb] in Htb.
   std_shapes d Hstd; cbn [d_payload] in Htb; (each_net Hn; out_k Htb Hp).
 Qed.
 
